@@ -26,5 +26,6 @@ void vp_log(int tag, int v) noexcept;      // observation log (translation valid
 int vp_mutex_owner(const void* m) noexcept;     // model state of a pthread mutex: 0 free, else owner id + 1
 int vp_rw_state(const void* l) noexcept;        // model state of a pthread rwlock: 0x100 writer | reader bitmask
 unsigned vp_blockcount() noexcept;
+unsigned vp_ublockcount() noexcept;         // ... blocked in a primitive without time-out
 unsigned vp_cvwaits() noexcept;             // condition-variable waits this thread has begun         // how often this thread ended a context blocked
 }
